@@ -72,6 +72,8 @@ def make(rng, cls, n, cond=1e3, scale=1.0):
         A = A + np.diag(d * (np.exp(1j * rng.uniform(0, 2 * np.pi, n)) if cp else 1))
         if cls == "tril":
             A = A.T.copy()
+    elif cls in ("nspd", "nhpd"):
+        return -make(rng, cls[1:], n, cond=cond, scale=scale)      # negative definite (e.g. -K, or K - w^2 M far above all resonances)
     elif cls in ("perm", "cperm"):
         # zero diagonal entries on dofs whose row and column hold exactly one off-diagonal entry: weighted derangement
         # (cyclic shifts, anti-diagonal 2x2 blocks [[0,a],[b,0]]) on some dofs, a generic coupled block on the rest
@@ -105,6 +107,8 @@ def perturb_same_class(rng, A, cls, rel=0.3):
     cp = np.iscomplexobj(A)
     if cls in ("diag", "cdiag"):
         return A * np.diag(rng.uniform(0.5, 2.0, n))
+    if cls in ("nspd", "nhpd"):
+        return -perturb_same_class(rng, -A, cls[1:], rel)
     if cls in ("spd", "hpd"):
         v = rng.standard_normal((n, 2)) + (1j * rng.standard_normal((n, 2)) if cp else 0)
         B = A * rng.uniform(0.5, 2.0) + rel * np.linalg.norm(A, 2) / n * (v @ v.conj().T)
@@ -162,7 +166,8 @@ def mask_is_symmetric(n, mask):
 def to_storage(A, storage):
     if storage == "dense":
         return A
-    return {"csc": sps.csc_matrix, "csr": sps.csr_matrix, "coo": sps.coo_matrix}[storage](A)
+    return {"csc": sps.csc_matrix, "csr": sps.csr_matrix, "coo": sps.coo_matrix, "csc_array": sps.csc_array, "csr_array": sps.csr_array,
+            "coo_array": sps.coo_array}[storage](A)
 
 
 def fe_matrix(rng, kind="stiffness", dim=2, n=(3, 2, 0), ndof=None, bc="some", cplx=False):
